@@ -8,7 +8,7 @@ export GOFLAGS=-mod=mod GOPROXY=off GOSUMDB=off GOTOOLCHAIN=local
 wt=$(mktemp -d /tmp/vseed.XXXXXX)
 git -C /repo worktree add -q --detach "$wt" HEAD || exit 2
 trap 'git -C /repo worktree remove --force "$wt" >/dev/null 2>&1; rm -rf "$wt"' EXIT
-cp "$d"/zz_*_test.go "$wt/$target/" || exit 2
+mkdir -p "$wt/$target"; cp "$d"/zz_*_test.go "$wt/$target/" || exit 2
 (cd "$wt/$target" && go test -vet=off -count=1 -run "$pat" . > "$wt/demo_clean.log" 2>&1); c=$?
 echo "demo without change: exit $c"
 git -C "$wt" apply "$d/patch.diff" || { echo "PATCH DOES NOT APPLY to HEAD"; exit 2; }
